@@ -522,7 +522,10 @@ func (ro *RedisOutput) rdbReplay(ctx context.Context, pipe <-chan *rdb.BinEntry)
 
 			if ro.outFilter.FilterKey(util.BytesToString(e.Key)) ||
 				ro.outFilter.FilterSlot(util.BytesToString(e.Key)) ||
-				ro.bisyncNsFilter.FilterKey(util.BytesToString(e.Key)) {
+				ro.bisyncNsFilter.FilterKey(util.BytesToString(e.Key)) ||
+				// with replace-hashtag the entry is written under the key without its first brace pair:
+				// "{redis-gunyu-checkpoint}" would be written over the stored position itself
+				ro.bisyncRdbTargetReserved(e.Key) {
 				filterOut = true
 			}
 		}
